@@ -22,7 +22,7 @@ func init() {
 		Rule: "all (sequence of length 0..N, start, stop, step) with bounds in {nil} U [-N-2,N+2] U int64 extremes and steps {nil,0,+-1,+-2,+-3,+-(N+1),extremes}, and all single indices, " +
 			"for arrays of distinct ints, ASCII strings, multi-byte strings, and strings of code points that share their low byte / low 16 bits with those ASCII letters (run before and after the ASCII ones in the same process); Arr#at/Str#at called directly (and through source for N<=3) and compared with a bignum reference slice; " +
 			"history: strs of length 1,2,3,5 of each kind first used by one of 18 other operations (_incBy, start of an iterated range, len, ord, iteration, +, ==, hashing as a map key, ...) and then indexed at both ends and sliced; " +
-			"non-trivial = the reference result is non-empty or an error, or a bound is out of range; distinct = distinct (kind,n,start,stop,step); round 7: A reeval family evaluates one slice expression (13 templates with one variable bound) inside a function for every sequence of 2 (thorough 3) values of the variable: each evaluation must give what that slice gives on its own.",
+			"non-trivial = the reference result is non-empty or an error, or a bound is out of range; distinct = distinct (kind,n,start,stop,step); round 7: A reeval family evaluates one slice expression (13 templates with one variable bound) inside a function for every sequence of 2 (thorough 3) values of the variable: each evaluation must give what that slice gives on its own.; round 8: Receivers built by operations next to a sibling built from the same parts (13 derivations x a window of bounds), arrays holding nil elements, and bounds that are ints without being int literals (boolean arithmetic, typed instances; a zero step so spelled must raise).",
 		Assumptions: []string{
 			"reference = Python slice.indices semantics computed with math/big positions",
 			"don't-care: with a negative step, a start below -n may yield either [] (boundary reading) or [s[0]...] (position reading); both accepted",
